@@ -310,6 +310,12 @@ def records(cx):
         def le_n(l):
             return l[0] == "is" and l[2] is False and l[1][0] == "bin" and l[1][1] == "Lt" and l[1][2][0] == "param" and is_f(l[1][3], "ReadyRecord.number")
         require(cx, c, cx.site_key(c, "pop"), "on_persist_ready(n) pops a record only if its number <= n", le_n, kill=False)
+    # a snapshot is stabilised / acknowledged before the entries that follow it
+    for f, first, then in ((crf, "RaftLog::stable_snap", "RaftLog::stable_entries"), (oprf, "Raft::on_persist_snap", "Raft::on_persist_entries")):
+        g = cx.pg(f)
+        fb, tb = _call_blocks(f, first), _call_blocks(f, then)
+        ok = bool(fb) and bool(tb) and not any(g.block_reaches(b, lambda x: x in fb) for b in tb)
+        cx.check(ok, "order:" + first.split("::")[-1], "%s: %s is never called after %s (the snapshot comes first)" % (fn_name(f), first.split("::")[-1], then.split("::")[-1]))
     # ready() records what it hands out
     rd = cx.fn("RawNode::ready")
     pushes = [c for c in cx.prog.call_sites_of("VecDeque::push_back") if c.fn is rd]
@@ -325,3 +331,21 @@ def uncommitted_release(cx):
     for c in cs:
         args = call_args(cx, c)
         cx.check(is_f(args[1], "LightReady.committed_entries"), "arg", "reduce_uncommitted_size is given exactly the committed entries being handed out (found %s)" % show(args[1]), c)
+
+
+@obligation("READY.advance_apply_order", ["C07"], floor=1, kind="order of a defining read",
+            why="advance() must report as applied only what was handed out before this call, not the entries of the LightReady it is about to return")
+def advance_apply_order(cx):
+    from ..engine import value_read_before
+    adv = cx.fn("RawNode::advance")
+    cs = [c for c in cx.prog.call_sites_of("RawNode::advance_apply_to") if c.fn is adv] + [c for c in cx.prog.call_sites_of("RawNode::commit_apply") if c.fn is adv]
+    cx.check(len(cs) == 1, "call", "advance() advances the applied index once")
+    for c in cs:
+        a = call_args(cx, c)[1]
+        ok_src = is_f(a, "RawNode.commit_since_index")
+        before = value_read_before(cx, c, 1, "RawNode::advance_append")
+        cx.check(ok_src and before is True, "order", "advance(): the applied index is commit_since_index as it was BEFORE advance_append produced the new LightReady (source %s, read-before %s)" % (show(a), before), c)
+    g = cx.pg(adv)
+    aa = _call_blocks(adv, "RawNode::advance_append")
+    ok = bool(aa) and all(g.dominated_by_block(c.at, lambda b: b in aa) for c in cs)
+    cx.check(ok, "after-append", "advance() first advances the append state, then reports the apply progress")
